@@ -9,10 +9,11 @@ fix_map = json.load(open(f'{root}/tools/fix_map.json'))
 extra = {}
 if os.path.exists(f'{root}/tools/fixed_extra.json'):
     extra = json.load(open(f'{root}/tools/fixed_extra.json'))
+still = json.load(open(f'{root}/tools/still_reproduces.json')) if os.path.exists(f'{root}/tools/still_reproduces.json') else {}
 own = [json.loads(l) for l in open(f'{root}/known_findings.jsonl') if l.strip() and not l.startswith('#')]
 own = [e for e in own if not e.get('merged')]
 out = list(own)
-for fn in sorted(glob.glob(f'{root}/known_findings.d/*.jsonl')):
+for fn in sorted(glob.glob(f'{root}/known_findings.src/*.jsonl')):
     for line in open(fn):
         line = line.strip()
         if not line or line.startswith('#'):
@@ -20,7 +21,7 @@ for fn in sorted(glob.glob(f'{root}/known_findings.d/*.jsonl')):
         e = json.loads(line)
         e['merged'] = os.path.basename(fn)
         key = f"{e['property']}|{e['clause']}|{json.dumps(e.get('features', {}), sort_keys=True)}"
-        if e.get('status') == 'open':
+        if e.get('status') == 'open' and e.get('what') not in still.get(e['property'], []):
             commit = extra.get(key)
             if not commit:
                 for slug, c in fix_map.items():
